@@ -1,0 +1,77 @@
+//go:build verif
+
+package proxy
+
+import (
+	"github.com/go-logr/logr"
+	"github.com/robinbraemer/event"
+
+	"go.minekube.com/gate/pkg/command"
+	"go.minekube.com/gate/pkg/edition/java/config"
+	"go.minekube.com/gate/pkg/edition/java/netmc"
+	"go.minekube.com/gate/pkg/edition/java/profile"
+	"go.minekube.com/gate/pkg/edition/java/proto/packet/chat"
+	"go.minekube.com/gate/pkg/gate/proto"
+	"go.minekube.com/gate/pkg/util/uuid"
+)
+
+// Verification hooks for property C21 (secure-chat order / acknowledgement conservation).
+// Add-only, no logic: a constructor wiring the real chatHandler + chatQueue of a bare
+// connectedPlayer to caller-supplied client/backend connections, and thin forwarding functions.
+
+type c21ConfigProvider struct{ cfg *config.Config }
+
+func (c c21ConfigProvider) config() *config.Config { return c.cfg }
+
+// C21Fixture is a connectedPlayer with a connected backend and the real chat handler.
+type C21Fixture struct {
+	p *connectedPlayer
+	h *chatHandler
+}
+
+// C21NewFixture builds the player over client, connects it to backend and returns the fixture.
+func C21NewFixture(client, backend netmc.MinecraftConn, eventMgr event.Manager, cmdMgr *command.Manager, forceKeyAuthentication bool) *C21Fixture {
+	p := &connectedPlayer{
+		MinecraftConn: client,
+		log:           logr.Discard(),
+		profile:       &profile.GameProfile{ID: uuid.UUID{0xC2, 0x1}, Name: "c21"},
+	}
+	p.chatQueue = newChatQueue(p)
+	sc := &serverConnection{player: p, log: logr.Discard()}
+	sc.connection = backend
+	p.connectedServer_ = sc
+	h := &chatHandler{
+		log:            logr.Discard(),
+		eventMgr:       eventMgr,
+		player:         p,
+		cmdMgr:         cmdMgr,
+		configProvider: c21ConfigProvider{cfg: &config.Config{ForceKeyAuthentication: forceKeyAuthentication}},
+	}
+	return &C21Fixture{p: p, h: h}
+}
+
+// C21HandleCommand forwards to chatHandler.handleCommand.
+func (f *C21Fixture) C21HandleCommand(p proto.Packet) error { return f.h.handleCommand(p) }
+
+// C21HandleChat forwards to chatHandler.handleChat.
+func (f *C21Fixture) C21HandleChat(p proto.Packet) error { return f.h.handleChat(p) }
+
+// C21HandleAck forwards to clientPlaySessionHandler.handleChatAcknowledgement.
+func (f *C21Fixture) C21HandleAck(offset int) {
+	(&clientPlaySessionHandler{player: f.p}).handleChatAcknowledgement(&chat.ChatAcknowledgement{Offset: offset})
+}
+
+// C21Delayed returns ChatState.delayedAckCount of the player's current chat queue.
+func (f *C21Fixture) C21Delayed() int32 { return f.p.chatQueue.chatState.delayedAckCount.Load() }
+
+// C21OnIdle calls fn once every task queued so far has completed (callback on the queue's head future).
+func (f *C21Fixture) C21OnIdle(fn func()) {
+	cq := f.p.chatQueue
+	cq.internalLock.Lock()
+	head := cq.head
+	cq.internalLock.Unlock()
+	head.ThenAccept(func(any) { fn() })
+}
+
+// C21Constants returns lastSeenMessagesWindowSize and minimumDelayedAckCount.
+func C21Constants() (window, minimum int) { return lastSeenMessagesWindowSize, minimumDelayedAckCount }
